@@ -1,4 +1,5 @@
 import RisorModel.C18.Model
+import RisorModel.C18.Tables
 import RisorModel.Generated.C18
 /-!
 C18 ties: facts regenerated from /repo's sources on this run equal what the REPL state machine
@@ -33,6 +34,17 @@ theorem compileRollsBack_tie :
     Risor.Generated.C18.compileRollsBackOnError = compileRollsBackOnError ∧
     Risor.Generated.C18.rollbackRestores = rollbackRestores ∧
     Risor.Generated.C18.truncateRestores = truncateRestores := by decide
+
+/-- layer 8 (`Tab.rollback`, `truncNames`): truncate deletes the name of a removed symbol only when the name's
+    entry IS that symbol — a removed block symbol does not take the name of a live global with it
+    (`rollback_restores_tables`; the contrast without the guard: `unguarded_truncate_forgets_a_global`) -/
+theorem truncateDeleteGuarded_tie : Risor.Generated.C18.truncateDeleteGuarded = truncateDeleteGuarded := by decide
+
+/-- the compiler's state, field by field, is the state `compilerStateReviewed` classifies (restored by the rollback /
+    compile-only with a deferred reset / assigned afresh by every Compile call / never assigned after construction):
+    a field added to Compiler, Code or SymbolTable — e.g. a table the compiler keeps NEXT to the code object, which
+    Code.rollback cannot restore — must be reviewed and modelled before this tie holds again -/
+theorem compilerState_tie : Risor.Generated.C18.compilerStateFields = compilerStateReviewed.map (·.1) := by decide
 
 /-- compile-only state (layer 3, `Mark.restored`): `pipeActive`, `loops`, `symbols`,
     `pendingSwitchValues` and — since the repair of C18-compiler-stuck-in-function — `Compiler.current`
